@@ -211,7 +211,7 @@ def edge_cover(ctx: Ctx, rep: Report, cache):
         rep.violations.append(Violation(key_of(clauses), f"edge of the model graph executed on the real objects is not a step of EnvAPI: "
                                         f"failing clauses {clauses}; stack={stack} from={pre} event={ev}", "edgecover",
                                         {"cfg": traces[i]["cfg"], "pair": cases[i]["pairs"][(l - 1) // 2], "seed": cases[i]["seed"]}))
-    if edges < 20 * len(cfgs) // 2:
+    if edges < 4 * len(cfgs):
         raise Machinery(f"edge cover executed only {edges} edges for {len(cfgs)} configurations: vacuity guard")
 
 
